@@ -422,6 +422,7 @@ Proof.
   - inv_bind H as f Hf. eapply wf_repartition; eauto using get_wf.
   - eapply wf_create_rows; [|exact H]. intros -> ->. exact Hrect.
   - unfold create_strict in H. destruct (_ && _); [discriminate|]. eapply wf_create; eauto. discriminate.
+  - inv_bind H as f Hf. inv_bind H as u Hu. eapply wf_drop_duplicates; eauto using get_wf.
 Qed.
 
 Lemma wf_run : forall prog env c, Forall wf env -> Forall instr_rect prog ->
@@ -548,5 +549,7 @@ Proof.
   intros names strict data p c H. apply finish_wf. unfold create_strict in H.
   destruct (_ && _); [discriminate|]. eapply wf_create; eauto. discriminate.
 Qed.
+Lemma frame_drop_duplicates : forall f cols p c, wf f -> drop_duplicates f cols = Ok p -> wf (fst (finish c p)).
+Proof. intros. apply finish_wf. eapply wf_drop_duplicates; eauto. Qed.
 Lemma frame_range : forall a b s p c, range_frame a b s = Ok p -> wf (fst (finish c p)).
 Proof. intros. apply finish_wf. eapply wf_range; eauto. Qed.
